@@ -143,7 +143,7 @@ def caller_case(draw):
     """The same language reached through its callers: array length, enum member value, #define."""
     idents = ["a", "b"]
     ctx = {"a": draw(st.integers(0, 6)), "b": draw(st.integers(0, 6))}
-    consts = {"K": draw(st.integers(0, 5)), "M": draw(st.integers(1, 4))}
+    consts = {"K": draw(st.one_of(st.integers(0, 5), st.sampled_from([8, 9, 10, 16, 64]))), "M": draw(st.one_of(st.integers(1, 4), st.sampled_from([8, 10, 12])))}
     env = {"contexts": [ctx], "consts": consts}
     ast = draw(expr_ast(draw(st.integers(1, 3)), idents + ["K", "M"], env))
     toks = X.tokens_of(ast)
@@ -151,7 +151,8 @@ def caller_case(draw):
     text = X.join_tokens(toks, gaps)
     more = [{"a": draw(st.integers(0, 6)), "b": draw(st.integers(0, 6))} for _ in range(draw(st.integers(0, 3)))]
     return {"ast": ast, "text": text, "ctx": ctx, "consts": consts, "compiled": draw(st.booleans()), "via": draw(st.sampled_from(["array", "enum", "define"])),
-            "more": more, "shadow": [draw(st.integers(0, 9)), draw(st.integers(0, 9))], "defines_after": draw(st.booleans())}
+            "more": more, "shadow": [draw(st.integers(0, 9)), draw(st.integers(0, 9))], "defines_after": draw(st.booleans()),
+            "const_spelling": {k_: draw(st.sampled_from(["dec", "dec", "hex", "oct", "bin", "oct-u", "paren-oct"])) for k_ in consts}}
 
 
 # ---------------------------------------------------------------- enumeration
@@ -326,7 +327,13 @@ def _run_callers(case, ctx, m):
     consts, c = case["consts"], case["ctx"]
     via = case["via"]
     cs = m.cstruct()
-    defs = "".join(f"#define {k} {v}\n" for k, v in consts.items())
+    def spell(k_, v_):
+        how = (case.get("const_spelling") or {}).get(k_, "dec")
+        return {"dec": str(v_), "hex": hex(v_), "oct": "0" + oct(v_)[2:] if v_ else "0", "bin": bin(v_), "oct-u": ("0" + oct(v_)[2:] if v_ else "0") + "u", "paren-oct": "(0" + oct(v_)[2:] + ")" if v_ else "(0)"}[how]
+
+    defs = "".join(f"#define {k} {spell(k, v)}\n" for k, v in consts.items())
+    for k_, v_ in consts.items():
+        ctx.count("callers:constant-spelled:" + (case.get("const_spelling") or {}).get(k_, "dec"))
     if via == "array":
         kind, want = _expect(ast, c, consts)
         if kind != "val":
